@@ -1509,6 +1509,9 @@ pub fn fragmented_starts() -> Vec<Start> {
     mk("room16-1seg", vec![Do(B(N(48))), Do(B(N(16))), Do(B(Rm(16))), Do(D(0)), Pin(1), Pin(0)]),
     // three segments with a tie (24, 24, 40), main memory exhausted
     mk("full-3seg", vec![Do(B(N(32))), Do(B(N(8))), Pin(1), Do(B(N(32))), Do(B(N(8))), Pin(2), Do(B(N(48))), Do(B(R)), Pin(3), Do(D(0)), Do(D(0)), Do(D(0))]),
+    // one segment (112 data bytes) that ends exactly at the cursor, 16 bytes of fresh space above it: what is left of
+    // the segment after a split is the last thing below the cursor
+    mk("seg-under-cursor", vec![Do(B(Rm(136))), Do(B(N(120))), Do(B(R)), Do(D(1)), Do(D(1)), Pin(0)]),
   ]
 }
 
